@@ -38,6 +38,40 @@ impl<'ast> Cycles<'ast> {
         }
     }
 
+    /// Structs that are only used as parameter types of `iface` or of one of its ancestors
+    /// (typically declared in an included file) are not reachable from the structs of the file
+    /// being compiled. They are emitted into the generated code all the same, so walk them too:
+    /// that way they are checked for cycles and handed to the struct verifier like the others.
+    fn visit_param_structs(&mut self, iface: &idlc_ast::Interface) {
+        let mut current = Some(Rc::new(iface.clone()));
+        while let Some(iface) = current {
+            if self.iface_graph.cycle().is_some() {
+                return;
+            }
+            for node in &iface.nodes {
+                let idlc_ast::InterfaceNode::Function(function) = node else {
+                    continue;
+                };
+                for param in &function.params {
+                    let r#type: &Type = match param {
+                        idlc_ast::Param::In { r#type, .. } => r#type.as_ref(),
+                        idlc_ast::Param::Out { r#type, .. } => r#type.as_ref(),
+                    };
+                    if let Type::Custom(c) = r#type {
+                        if let Some((custom, _)) = self.idl_store.struct_lookup(c) {
+                            self.struct_graph.add_node(custom.ident.to_string());
+                            self.visit_struct_recurse(custom);
+                        }
+                    }
+                }
+            }
+            current = iface
+                .base
+                .as_ref()
+                .and_then(|base| self.idl_store.iface_lookup(base));
+        }
+    }
+
     pub fn visit_struct_recurse(&mut self, r#struct: Rc<idlc_ast::Struct>) {
         if self.struct_graph.cycle().is_some() {
             return;
@@ -60,6 +94,7 @@ impl<'ast> Visitor<'ast> for Cycles<'ast> {
     fn visit_interface(&mut self, iface: &'ast idlc_ast::Interface) {
         self.visit_iface_recurse(Rc::new(iface.clone()));
         self.iface_graph.add_node(iface.ident.to_string());
+        self.visit_param_structs(iface);
     }
 
     fn visit_struct(&mut self, r#struct: &'ast idlc_ast::Struct) {
